@@ -60,6 +60,7 @@ type Node struct {
 	next      map[string][]Outcome // per kind: outcomes for upcoming calls (FIFO)
 	restFail  map[string]int       // action -> number of upcoming requests to fail
 	restHold map[string]*restHold // action -> hold the next request of that action (see HoldRest)
+	restDrop map[string]int // request pattern ("METHOD path?action" substring) -> number of upcoming product-originated requests whose connection is closed without an answer
 	pingFail  bool
 	StallFor  time.Duration
 	Log       []DPCall
@@ -147,6 +148,28 @@ func (n *Node) listen() error {
 		}
 		if r.URL.Path == "/ping" && n.pingFail {
 			failIt = true
+		}
+		dropIt := false
+		if r.Header.Get("X-Verif-Origin") == "" {
+			key := r.Method + " " + r.URL.Path + "?" + action
+			for pat, cnt := range n.restDrop {
+				if cnt > 0 && strings.Contains(key, pat) {
+					n.restDrop[pat]--
+					dropIt = true
+					break
+				}
+			}
+		}
+		if dropIt {
+			n.mu.Unlock()
+			// no HTTP answer at all: the replica "died" between two requests
+			if hj, ok := w.(http.Hijacker); ok {
+				if c, _, err := hj.Hijack(); err == nil {
+					c.Close()
+					return
+				}
+			}
+			panic(http.ErrAbortHandler)
 		}
 		var hold *restHold
 		if action != "" && n.restHold != nil && n.restHold[action] != nil {
@@ -475,6 +498,18 @@ func (n *Node) HoldRest(action string, d time.Duration) *restHold {
 	n.restHold[action] = h
 	n.mu.Unlock()
 	return h
+}
+
+// DropRest: the next `times` requests that match pat and come from the product
+// (not from the harness, which marks its own requests with X-Verif-Origin) get no
+// HTTP answer: the connection is closed.
+func (n *Node) DropRest(pat string, times int) {
+	n.mu.Lock()
+	if n.restDrop == nil {
+		n.restDrop = map[string]int{}
+	}
+	n.restDrop[pat] += times
+	n.mu.Unlock()
 }
 
 func (n *Node) SetPingFail(b bool) {
